@@ -61,8 +61,12 @@ class Loader(yaml.SafeLoader):
             A processed node representing the document.
         """
         node = cast(yaml.Node, super().get_single_node())
-        if node is not None:
-            node = self.__process_node(node, type(self).document_type)
+        if node is None:
+            # An empty document is a null document, which is only
+            # acceptable if the document type allows that.
+            mark = yaml.error.Mark('empty document', 0, 0, 0, None, 0)
+            node = yaml.ScalarNode('tag:yaml.org,2002:null', '', mark, mark)
+        node = self.__process_node(node, type(self).document_type)
         return node
 
     def get_node(self) -> yaml.Node:
